@@ -8,6 +8,8 @@ import (
 	"net"
 	"sync"
 	"sync/atomic"
+
+	"github.com/postalsys/muti-metroo/internal/verifhook"
 )
 
 var (
@@ -169,6 +171,7 @@ func (a *UDPAssociation) ReadLoop() {
 	buf := make([]byte, 65535) // Max UDP datagram size
 
 	for {
+		verifhook.At("socks5.udp.loop", a)
 		select {
 		case <-a.ctx.Done():
 			return
